@@ -33,7 +33,7 @@ CONFIG = dict(
     min_nontrivial={"quick": 800, "thorough": 4000},
     nshards={"quick": 8, "thorough": 16},
     timeout={"quick": 600, "thorough": 3600},
-    required_counters=("retries_checked", "compositions_checked", "values_delivered_or_refused", "opcode_encodings_checked"),
+    required_counters=("opcode_patches_checked", "retries_checked", "compositions_checked", "values_delivered_or_refused", "opcode_encodings_checked"),
 )
 
 
@@ -366,6 +366,63 @@ def check_opcode(ctx, f, name, arg):
         agg.violation(f"opcode-encoding:{name}", f"{name}({arg!r}).encode() reads back with argument {back!r}"[:300], w)
 
 
+def check_opcode_in_pickle(ctx, f, name):
+    """A constructed opcode placed into a pickle (framed / unframed) through the sequence interface, its argument then
+    changed (a template patched per target) and the pickle serialised again: at its position the standard disassembler
+    reads that opcode with the argument the object has now - or serialising refuses."""
+    agg = ctx.agg
+    cls = f.OPCODES_BY_NAME[name]
+    good = []
+    for arg in opcode_args(name):
+        if arg is None:
+            return
+        try:
+            enc = cls(arg).encode()
+            if [(o.name) for o, a, _ in pickletools.genops(enc + b".")][0] != name:
+                continue
+            good.append(arg)
+        except Exception:
+            continue
+        if len(good) == 3:
+            break
+    if len(good) < 2 or name in ("PROTO", "FRAME", "STOP"):
+        return
+    for pr in (2, 4):
+        base = pickle.dumps(["some", "list", "of", "items", 1, 2.5], pr)
+        for a1, a2 in ((good[0], good[1]), (good[1], good[-1]), (good[-1], good[0])):
+            if a1 is a2:
+                continue
+            key = h(("oppatch|" + name + "|" + repr((a1, a2, pr))).encode())
+            if not agg.case(key, True, {"opcode": name, "patched": [repr(a1)[:40], repr(a2)[:40]], "protocol": pr}):
+                continue
+            w = {"opcode": name, "arg_repr": repr(a1)[:200], "second_arg_repr": repr(a2)[:200], "protocol": pr, "patched": True}
+            try:
+                p = f.Pickled.load(base)
+                op = cls(a1)
+                idx = len(p) - 1
+                p.insert(idx, op)
+                first = p.dumps()
+                op.arg = a2
+                second = p.dumps()
+            except RecursionError:
+                continue
+            except Exception as e:
+                agg.hist("opcode_patch_refusals", f"{name}:{type(e).__name__}")
+                continue
+            agg.count("opcode_patches_checked")
+            for which, data, want in (("as inserted", first, a1), ("after its argument was changed", second, a2)):
+                try:
+                    ops = [(o.name, a) for o, a, _ in pickletools.genops(data)]
+                except Exception as e:
+                    agg.violation(f"opcode-in-pickle:{name}", f"{name} {which}: the pickle is not readable by pickletools: {str(e)[:80]}", w)
+                    break
+                at = [a for n, a in ops if n == name]
+                if not any(arg_equiv(name, want, b) for b in at):
+                    agg.violation(f"opcode-in-pickle:{name}",
+                                  f"{name}({want!r}) {which} (protocol {pr} pickle): the serialised pickle carries {name} with {at[:3]!r}"[:300], w)
+                    break
+
+
 NAME_PAIRS = [("mod", "\u00b5"), ("\uff4f\uff53", "getpid"), ("mod", "\ufb01le"), ("m", "e\u0301x"), ("caf\u00e9", "\u4e2d"), ("pkg.sub", "K"),
               ("m", "\u00aa"), ("\U0001d41a", "x"), ("mod", "plain"),
               # names the two-line text form cannot carry: blanks, newlines, nothing at all
@@ -584,6 +641,10 @@ def run_shard(ctx):
                 if helper == "insert_python_first":
                     check_composition(ctx, f, v, i % 4)
     check_created_names(ctx, f)
+    for name in sorted(f.OPCODES_BY_NAME):
+        i += 1
+        if i % ctx.nshards == ctx.shard:
+            check_opcode_in_pickle(ctx, f, name)
     for name in sorted(f.OPCODES_BY_NAME):
         for arg in opcode_args(name):
             i += 1
